@@ -97,6 +97,10 @@ CALLED = [
     "Select(ds, lambda {A}: Select({A}.so_jets, lambda {C}, {Q}={A}.i_pt: {C}.i_pt + {Q}))",
     "Select(Select(ds, lambda {A}: {A}.o_p), lambda {B}: Count(Where({B}.so_jets, lambda {C}, {Q}={B}.i_pt: {C}.i_pt > {Q})))",
     "Select(ds, lambda {A}: (lambda {P}: Select({A}.so_jets, lambda {C}, {Q}={P} + 1: (lambda {P}: {P} + {Q})({C}.i_pt)))({A}.i_eta))",
+    # the argument is a bare variable; the called lambda's body has a nested lambda that may re-use that variable's name
+    "Select(ds, lambda {A}: Select({A}.so_jets, lambda {B}: (lambda {P}: Count(Where({A}.so_jets, lambda {C}: {C}.i_pt > {P}.i_pt)))({B})))",
+    "Select(ds, lambda {A}: (lambda {P}: Select({P}.so_jets, lambda {C}: {C}.i_pt + {P}.i_eta))({A}))",
+    "Select(ds, lambda {A}: Select({A}.so_jets, lambda {B}: (lambda {P}, {Q}: Select({Q}.so_trk, lambda {C}: {C}.i_pt - {P}.i_eta))({B}, {A})))",
     # call shapes python binds in other ways than name by name: *args / **kwargs / positional-only / keyword-only parameters, starred arguments
     "Select(ds, lambda {A}: (lambda {P}, *{Q}: {P} + len({Q}) + {Q}[0])({A}.i_pt, {A}.i_eta, 3))",
     "Select(ds, lambda {A}: (lambda {P}, /, {Q}: {P} - {Q})(*({A}.i_pt, {A}.i_eta)))",
